@@ -40,8 +40,8 @@ def check(case) -> Result:
     n = 0
     both = False
     amb_total = 0
-    w_init = U.si('AngularSpeed', *case['init']['speed'])
-    for tr, dts in SP.segments(case, traces):
+    for tr, dts, init in SP.segments(case, traces, with_init=True):
+        w_init = U.si('AngularSpeed', *init['speed'])
         if not I.complete(tr) or not I.finite_trace(tr):
             res.classes += ('incomplete-or-nonfinite-trace',)
             continue
@@ -87,7 +87,10 @@ def s_case(draw, max_len=5, max_steps=40):
     elif h == 'run+continue':
         case['history'] = [run1, G.s_run(draw, mdl, max_steps=max(3, max_steps // 2))]
     else:
-        case['history'] = [run1, {'op': 'reset', 'reinit': True}, dict(run1, new_solver=draw(st.booleans()))]
+        reset = {'op': 'reset', 'reinit': True}
+        if draw(st.booleans()):
+            reset['init'] = G.s_init(draw, mdl)          # rerun from other initial conditions
+        case['history'] = [run1, reset, dict(run1, new_solver=draw(st.booleans()))]
     rules = G.s_constant_rules(draw, G.horizon(case), max_rules=4,
                                values=st.one_of(st.floats(-1, 1), st.sampled_from([0, 0.0, 1, -1, 0.5, -0.5, 0, 0])))
     if rules:
